@@ -241,7 +241,7 @@ class Gen:
         if info["vfn"]:
             out.append("fn %s(v: %s, loc: deserr::ValuePointerRef) -> Result<%s, FnErr> {" % (info["vfn"], name, name))
             out.append('    log_call("%s", vec![v.to_j(), loc_rv(loc)]);' % info["vfn"])
-            out.append("    if designated(&v.to_j()) {")
+            out.append("    if designated_v(&v.to_j()) {")
             out.append('        let e = new_fn_err("%s");' % info["vfn"])
             out.append('        log_ret_err("%s", e.id);' % info["vfn"])
             out.append("        return Err(e);")
@@ -366,7 +366,7 @@ class Gen:
         for e in self.entries:
             self.entry_ids.append(self.occ(e))
         rs = ["// @generated by tools/gen_catalogue.py - do not edit",
-              "use crate::rt::{bump, designated, loc_rv, log_call, log_ret_err, log_ret_ok, new_fn_err, rv, str_rv, strs_rv, FnErr, RecErr, RecErr2, ToJ, P, W};",
+              "use crate::rt::{bump, designated, designated_v, loc_rv, log_call, log_ret_err, log_ret_ok, new_fn_err, rv, str_rv, strs_rv, FnErr, RecErr, RecErr2, ToJ, P, W};",
               "use crate::core::{go, go_rec, Done};",
               "use crate::ov::OV;",
               "use serde_json::{json, Value as J};",
